@@ -42,8 +42,8 @@ type Observer interface {
 
 type Engine struct {
 	unroll map[*ssa.BasicBlock]bool
-	p   *Prog
-	eff *Effects
+	p      *Prog
+	eff    *Effects
 
 	symTab  map[string]SymID
 	symName []string
@@ -146,6 +146,7 @@ func (eng *Engine) checkEnv(e *Env, where string) {
 		}
 	}
 }
+
 var traceShapes = os.Getenv("SPDXVERIF_TRACE_SHAPES") != ""
 
 func NewEngine(p *Prog) *Engine {
